@@ -390,6 +390,10 @@ fn dump() {
         u8::from(probe("[[content.rules]]\npattern = \"a\"\nmax_lines = 1\nexpires = \"soon\"\n"))
     );
     println!(
+        "PROBE strict_dates {}",
+        u8::from(probe("[[content.rules]]\npattern = \"a\"\nmax_lines = 1\nexpires = \"2025-02-31\"\n"))
+    );
+    println!(
         "PROBE count_exclude {}",
         u8::from(probe("[structure]\ncount_exclude = [\"[a\"]\n"))
     );
